@@ -302,4 +302,6 @@ func runC05(c *Ctx) {
 			runRepSendTimeoutScenario(c, fl)
 		}
 	}
+	runRawRetryAfterTimeout(c)
+	runRawReplyToGoneClient(c)
 }
